@@ -35,6 +35,7 @@ def scenarios(tier):
         [(1, 'obedient'), (2, 'obedient'), (2, 'first-stubborn'), (2, 'slow'), (1, 'stubborn')]
     for n0, pat in cfgs:
         out.append(Scenario('hist', n0=n0, pat=pat, tier=tier))
+    out.append(Scenario('hist', n0=2, pat='slow', tier=tier, tick=0.3))
     out.append(Scenario('sweep', n0=1, pat='obedient', tier=tier, nodet=True))
     return out
 
@@ -193,7 +194,8 @@ def run(scn, ch):
     tier = scn.tier
 
     def make_world(ch):
-        world = World(ch, [WSpec('a', numprocesses=scn.n0, graceful_timeout=G, behaviours=pattern(scn.pat))])
+        world = World(ch, [WSpec('a', numprocesses=scn.n0, graceful_timeout=G, behaviours=pattern(scn.pat))],
+                      check_delay=scn.p.get('tick', 1.0))
         _world_with_death_ctx(world)
         return world
 
